@@ -272,7 +272,7 @@ def compile_error_summary(text):
 # ---------------------------------------------------------------------------------------------
 
 def write_evidence(prop, data):
-    d = os.path.join(VERIF, "evidence")
+    d = os.environ.get("VERIF_EVIDENCE_DIR") or os.path.join(VERIF, "evidence")
     os.makedirs(d, exist_ok=True)
     path = os.path.join(d, prop + ".json")
     tmp = path + ".tmp"
